@@ -92,7 +92,7 @@ def gen_spec(rng, solver, df, pen, seed, coords):
                 warm=str(rng.choice(["cold", "zero", "dense", "sparse"])))
     if pen in ("MCPenalty", "WeightedMCPenalty", "SCAD", "BlockMCPenalty", "BlockSCAD") and rng.random() < 0.5:
         spec["pen_opts"] = dict(gamma=float(rng.choice([3.0, 10.0, 50.0])))
-    return spec
+    return K.widen(rng, spec)
 
 
 def run_shard(spec, emit):
@@ -120,7 +120,7 @@ def run_case(emit, cid, cs, sample=False):
     out = case.solve(w0, xw0)
     f = O.judge_return(case, out, tol)
     cell = case.cell()
-    rec = dict(id=cid, cell=cell, digest=digest(cs), hist={"tol": tol, "warm": cs.get("warm")})
+    rec = dict(id=cid, cell=cell, digest=digest(cs), hist={"tol": tol, "warm": cs.get("warm"), "size": cs.get("size", "small")})
     desc = case.describe()
     if f["exc"] is not None:
         # refusals / crashes are C13's and C19's business; here they decide nothing
